@@ -350,11 +350,24 @@ impl Gen {
                 6 | 7 => ConnackSpec::Normal {
                     sp: if clean_start { SpMode::Force(false) } else { sp.clone() },
                     reason: 0,
-                    props: vec![match rng.below(3) {
-                        0 => Prop::ReceiveMaximum(0),
-                        1 => Prop::MaximumQoS(3),
-                        _ => Prop::AssignedClientId("x".repeat(70)),
-                    }],
+                    props: {
+                        let bad = match rng.below(3) {
+                            0 => Prop::ReceiveMaximum(0),
+                            1 => Prop::MaximumQoS(3),
+                            _ => Prop::AssignedClientId("x".repeat(70)),
+                        };
+                        // half of the time acceptable properties come first: nothing of a CONNACK
+                        // that is refused in the end may stick (an assigned identifier, limits)
+                        if !matches!(bad, Prop::AssignedClientId(_)) && rng.chance(1, 2) {
+                            let mut v = vec![Prop::AssignedClientId(rand_string(rng, 12)), Prop::ServerKeepAlive(*rng.pick(&[0u16, 7, 3600])), Prop::MaximumPacketSize(*rng.pick(&[20u32, 64, 100_000]))];
+                            rng.shuffle(&mut v);
+                            v.truncate(1 + rng.below(3));
+                            v.push(bad);
+                            v
+                        } else {
+                            vec![bad]
+                        }
+                    },
                 },
                 0 => ConnackSpec::Normal { sp: SpMode::Force(false), reason: *rng.pick(&[0x80u8, 0x85, 0x87, 0x88, 0x89, 0x9F]), props: vec![] },
                 1 => ConnackSpec::Raw({ let n = rng.range(1, 12); rng.bytes(n) }),
